@@ -1084,9 +1084,50 @@ SIMPLE_ADDS = [
     ({"k": "array", "items": {"k": "int"}}, []), ({"k": "map", "values": {"k": "string"}}, {}),
     ({"k": "array", "items": {"k": "string"}}, ["a", "b"]),
 ]
+def _rich_add(d, table):
+    """(type, JSON default) for a reader-only field beyond the simple ones: numbers given as JSON integers, new named
+    types (enum, fixed-free record with nested defaults), non-empty maps, unions whose first branch is not null,
+    references to types that already exist."""
+    n = sum(1 for k in table if ".Added" in k or k.startswith("Added"))
+    w = d.choice(["double-int", "float-int", "enum", "record", "map", "union-string", "union-record", "nested", "existing", "long-big", "bytes"])
+    if w == "bytes":
+        return {"k": "bytes"}, d.choice(["", "ab", "\u00ff\u0000\u0080"])
+    if w == "double-int":
+        return {"k": "double"}, d.choice([1, 0, -3])
+    if w == "float-int":
+        return {"k": "float"}, d.choice([2, 0.5])
+    if w == "long-big":
+        return {"k": "long"}, d.choice([2**40, -(2**62)])
+    if w == "enum":
+        name = f"AddedEnum{n}"
+        table[name] = {"k": "enum", "name": name, "aliases": [], "symbols": ["P", "Q", "R"]}
+        return {"k": "ref", "name": name}, d.choice(["P", "R"])
+    if w in ("record", "union-record", "nested"):
+        name = f"AddedRec{n}"
+        table[name] = {"k": "record", "name": name, "aliases": [], "fields": [
+            {"name": "p", "type": {"k": "int"}, "aliases": [], "default": 5},
+            {"name": "q", "type": {"k": "array", "items": {"k": "string"}}, "aliases": []},
+            {"name": "r", "type": {"k": "union", "branches": [{"k": "null"}, {"k": "string"}]}, "aliases": [], "default": None}]}
+        dv = d.choice([{"q": []}, {"p": 1, "q": ["z"], "r": None}, {"q": ["a", "b"], "p": -1}])
+        if w == "record":
+            return {"k": "ref", "name": name}, dv
+        if w == "union-record":
+            return {"k": "union", "branches": [{"k": "ref", "name": name}, {"k": "null"}]}, dv
+        return {"k": "map", "values": {"k": "array", "items": {"k": "ref", "name": name}}}, d.choice([{}, {"k": [dv]}, {"k": [], "l": [dv, dv]}])
+    if w == "map":
+        return {"k": "map", "values": {"k": "long"}}, {"a": 1, "b": -2}
+    if w == "union-string":
+        return {"k": "union", "branches": [{"k": "string"}, {"k": "null"}, {"k": "int"}]}, d.choice(["s", ""])
+    # an existing enum (an existing record could be the one being extended: its default would never end)
+    for full, t in table.items():
+        if t["k"] == "enum" and d.p(0.7):
+            return {"k": "ref", "name": full}, t["symbols"][d.i(len(t["symbols"]))]
+    return {"k": "double"}, 7
+
+
 NONPROMO = {"int": "string", "long": "boolean", "float": "int", "double": "float", "string": "int", "bytes": "long", "boolean": "int", "null": "int"}
 EVO_STEPS = [
-    ("reorder", 4), ("drop-field", 5), ("add-field-default", 4), ("rename-field-alias", 3), ("promote", 6),
+    ("reorder", 4), ("drop-field", 5), ("add-field-default", 8), ("rename-field-alias", 3), ("promote", 6),
     ("enum-add", 2), ("enum-remove-default", 3), ("rename-type-alias", 3), ("change-namespace", 2),
     ("wrap-union", 5), ("unwrap-union", 3), ("permute-union", 3), ("union-insert-branch", 5),
     ("add-field-nodefault", 2), ("change-type", 2), ("enum-remove-nodefault", 2), ("fixed-size", 3), ("rename-type-noalias", 2), ("union-drop-branch", 2),
@@ -1142,11 +1183,12 @@ def json_default_ok(node, table, dj, depth=0):
         lo, hi = (B.INT_MIN, B.INT_MAX) if k == "int" else (B.LONG_MIN, B.LONG_MAX)
         return isinstance(dj, int) and not isinstance(dj, bool) and lo <= dj <= hi
     if k in ("float", "double"):
-        return isinstance(dj, float)  # keep JSON default == Python value (no int literals for floats)
+        return isinstance(dj, (int, float)) and not isinstance(dj, bool)
     if k == "string":
         return isinstance(dj, str)
     if k in ("bytes", "fixed"):
-        return False  # bytes/fixed defaults are outside the main campaign (F-DEFAULT-BYTES)
+        # (reader-side only: F-DEFAULT-BYTES concerns writing and validating)
+        return isinstance(dj, str) and all(ord(c) < 256 for c in dj) and (k == "bytes" or len(dj) == n["size"])
     if k == "enum":
         return isinstance(dj, str) and dj in n["symbols"]
     if k == "array":
@@ -1160,8 +1202,8 @@ def json_default_ok(node, table, dj, depth=0):
             if f["name"] in dj:
                 if not json_default_ok(f["type"], table, dj[f["name"]], depth + 1):
                     return False
-            else:
-                return False  # fully specified record defaults only
+            elif "default" not in f:
+                return False
         return True
     return False
 
@@ -1220,7 +1262,10 @@ def _apply(d, step, holder, table):
         if not recs:
             return False
         r = d.choice(recs)
-        t, dv = d.choice(SIMPLE_ADDS)
+        if d.p(0.6):
+            t, dv = _rich_add(d, table)
+        else:
+            t, dv = d.choice(SIMPLE_ADDS)
         f = {"name": f"added{len(r['fields'])}", "type": _copy.deepcopy(t), "aliases": []}
         if step == "add-field-default":
             f["default"] = _copy.deepcopy(dv)
